@@ -1,10 +1,13 @@
 """C04 - PUSH/POP/CALL/RET use the stack pointer and stack memory like hardware."""
 import vlib
+import progcommon as pc
 import x86common as xc
 
 PROP = "C04"
 OWNS = lambda c: c in ("reg", "mem", "rip", "out-missing-fault", "out-spurious-error", "out-crash", "fault-moved-state")
 DEVKEY = "stack-slot-shifted-by-one"
+
+PROG_OWNS = lambda c, cls, m: cls == "stack" and c in ("reg", "mem", "rip", "out-spurious-error", "out-missing-fault", "known-stack-convention")
 
 
 def run(tier, seed):
@@ -26,10 +29,19 @@ def run(tier, seed):
                       "[rsp] and [rsp+8]; judged: RSP, destination register, every stack byte written, RIP. An event that differs from the "
                       "architecture but equals ax's documented convention EXACTLY (store at old RSP then decrement / increment then load) is "
                       "the known finding; any other difference is a violation.")
+        pc.phase(rep, tier, seed + 8400, wd, PROG_OWNS)
         return rep.finish()
     finally:
         vlib.cleanup(wd)
 
 
 def replay(path, seed):
+    import json as _j
+    _c = _j.load(open(path))["case"]
+    if _c.get("prog"):
+        _wd = vlib.workdir(PROP.lower() + "r")
+        try:
+            return pc.replay(vlib.Report(PROP, "quick", seed, "model_checking"), _c, _wd, PROG_OWNS)
+        finally:
+            vlib.cleanup(_wd)
     return xc.std_replay(PROP, path, seed, OWNS, DEVKEY)
